@@ -1,6 +1,6 @@
 import TrackpyV.Model.Lsq
 /-
-The two closures of `FitFunctions.get_residual` (`trackpy/refine/least_squares.py` L288-339) as
+The two closures of `FitFunctions.get_residual` (`trackpy/refine/least_squares.py` L290-341) as
 functions of the optimisation vector: `objective v = residual(vect)` and `jacobian v =
 jacobian(vect)`, i.e. `Pack.unpack` (vect_to_params), the row/column transposition between the
 `params[feature, parameter]` rows the closures read and the column model of `Pack`, the formulas of
@@ -20,12 +20,17 @@ entry `i` of every list of `a` (`params[:, i]` from the rows, `params[r]` from t
 def transpose {β : Type} [Inhabited β] (w : Nat) (a : List (List β)) : List (List β) :=
   (List.range w).map (fun i => a.map (fun r => r.getD i default))
 
+/-- `cl_groups`: `[np.arange(n)]` if `groups is None` else `groups[0]`.  mirrors L278-281 -/
+def clGroups (n : Nat) : Option Groups → List (List Nat)
+  | none => [List.range n]
+  | some G => G.headD []
+
 section Generic
 variable {α : Type} [Add α] [Sub α] [Mul α] [Div α] [Neg α] [NatCast α] [ExpSqrt α] [Inhabited α]
 
 /-- how the closures read row `params[i]`: `params[i, 0]`, `params[i, 1]`, `p[2:2+nShape]` (inside
 `r2_fun`), `params[i, -n_fun_params:]`; `j` = position of the feature in its cluster (`masks_cl[j]`).
-mirrors L295-300 / L315-325 -/
+mirrors L297-302 / L317-327 -/
 def mkFeat (g : Geo) (j : Nat) (row : List α) : Feat α :=
   { id := j, bg := row.getD 0 zero, signal := row.getD 1 zero,
     θ := (row.drop 2).take g.nShape, fp := row.drop (2 + g.nShape) }
@@ -53,14 +58,14 @@ variable (g : Geo) (fn : Fn) (nd norm : α) (n : Nat) (groups : Option Groups) (
   (pconst : List (List α)) (frames : List (Frame α))
 
 /-- `residual(vect)`: `vect_to_params`, then the sum over the clusters.  `pconst` = the COLUMNS of
-`params_const`.  mirrors L288-302 -/
+`params_const`.  mirrors L290-304 -/
 def objective (v : List α) : Option α :=
   (unpack n groups modes v pconst).map (fun cols =>
     residual g fn nd norm (frames.map (clusterOf g (transpose n cols))))
 
 /-- `jacobian(vect)`: `vect_to_params`, `result = params.copy()`, `result[indices] =` the rows of every
 cluster (`gradRows`), `vect_from_params(result, modes, groups, operation=np.sum) / norm`.
-mirrors L307-339 -/
+mirrors L309-341 -/
 def jacobian (v : List α) : Option (List α) :=
   match unpack n groups modes v pconst with
   | none => none
